@@ -72,7 +72,7 @@ Definition class_of (c : rg_config) (f : file_kind) : option err_class :=
 (* ---- initialisation ---- *)
 Inductive pattern := BadPattern | Matches (files : list (string * file_kind)).
 
-Inductive init_error := ErrUnknownFailOn | ErrNoMatch (pattern_index : N) | ErrParse (file : string).
+Inductive init_error := ErrUnknownFailOn | ErrNoMatch (pattern_index : N) | ErrBadPattern (pattern_index : N) | ErrParse (file : string).
 Record engine_state := { active : list group; skipped : list string }.
 Inductive init_result :=
 | InitErr (e : init_error)
@@ -95,16 +95,31 @@ Fixpoint load_files (c : rg_config) (fo : fail_on) (fs : list (string * file_kin
       end
   end.
 
+(* a malformed glob matches no file: an initialisation error since repository commit "fix: a malformed
+   rules pattern is an initialisation error" (before it, the pattern was logged and skipped: _prefix) *)
 Fixpoint load_patterns (c : rg_config) (fo : fail_on) (ps : list pattern) (i : N)
          (st : N * list group * list string) : init_error + (N * list group * list string) :=
   match ps with
   | [] => inr st
-  | BadPattern :: r => load_patterns c fo r (N.succ i) st
+  | BadPattern :: _ => inl (ErrBadPattern i)
   | Matches [] :: _ => inl (ErrNoMatch i)
   | Matches fs :: r =>
       match load_files c fo fs st with
       | inl e => inl e
       | inr st' => load_patterns c fo r (N.succ i) st'
+      end
+  end.
+
+Fixpoint load_patterns_prefix (c : rg_config) (fo : fail_on) (ps : list pattern) (i : N)
+         (st : N * list group * list string) : init_error + (N * list group * list string) :=
+  match ps with
+  | [] => inr st
+  | BadPattern :: r => load_patterns_prefix c fo r (N.succ i) st
+  | Matches [] :: _ => inl (ErrNoMatch i)
+  | Matches fs :: r =>
+      match load_files c fo fs st with
+      | inl e => inl e
+      | inr st' => load_patterns_prefix c fo r (N.succ i) st'
       end
   end.
 
@@ -131,7 +146,7 @@ Definition init_prefix (c : rg_config) (ps : list pattern) : init_result_prefix 
   else match parse_fail_on (c_fail_on c) (c_legacy c) with
        | None => PInitErr ErrUnknownFailOn
        | Some fo =>
-           match load_patterns c fo ps 0%N (0%N, [], []) with
+           match load_patterns_prefix c fo ps 0%N (0%N, [], []) with
            | inl e => PInitErr e
            | inr (loaded, act, sk) =>
                let total := fold_right (fun p n => match p with Matches fs => (N.of_nat (List.length fs) + n)%N | BadPattern => n end) 0%N ps in
@@ -147,6 +162,6 @@ Definition all_files (ps : list pattern) : list (string * file_kind) :=
 Definition valid_groups (ps : list pattern) : list group :=
   flat_map (fun f => match snd f with Valid gs => gs | _ => [] end) (all_files ps).
 Definition has_no_match (ps : list pattern) : bool :=
-  existsb (fun p => match p with Matches [] => true | _ => false end) ps.
+  existsb (fun p => match p with Matches [] | BadPattern => true | _ => false end) ps.
 Definition listed_failure (c : rg_config) (fo : fail_on) (ps : list pattern) : bool :=
   existsb (fun f => match class_of c (snd f) with Some cls => fails fo cls | None => false end) (all_files ps).
